@@ -321,6 +321,16 @@ def gen_program(c, nmax=60):
       P.append(("bne", CNT, 0, -4 * (len(body) + 1)))
     else:
       P.extend(straight(c.randint(1, 6), False))
+  if c.random() < 0.06:
+    # far branches: a taken forward and a taken backward bne whose targets are more than 2 KiB away
+    # (immediate bits above 11 matter), the gap filled with increments of x2 so that a wrong landing shows
+    F = c.randint(510, 700)
+    P.append(("bne", BASE, 0, 4 * (F + 3)))           # A   -> C
+    P.append(("csrw", CSR_PROC2MNGR, 2))              # A+1 (target of the backward branch)
+    P.append(("bne", BASE, 0, 4 * (F + 2)))           # A+2 -> D
+    P.extend([("addi", 2, 2, 1)] * F)                 # never executed
+    P.append(("bne", BASE, 0, -4 * (F + 2)))          # C   -> A+1
+    P.append(("csrw", CSR_PROC2MNGR, 2))              # D
   # epilogue: sentinel, then park on an exhausted mngr2proc
   P.append(("addi", 13, 0, SENTINEL))
   P.append(("csrw", CSR_PROC2MNGR, 13))
